@@ -648,6 +648,15 @@ func runCloneRules(r *Run, clones []cloneFn, rulePrefix string, aliasMode int, s
 									}
 								}
 							}
+							// …or if some function walks the registry and hands what hangs off an entry (its
+							// paragraphs) to code that writes through it: "never handed out" no longer holds
+							if !bad {
+								if mfv, _ := fieldOfAddr(stripLoadsAddr(mu.Map)); mfv != nil {
+									if w := registryEntriesMutated(p, ms, mfv); w != "" {
+										bad, why = true, w
+									}
+								}
+							}
 						}
 						r.Check(rulePrefix+"-alias", fmt.Sprintf("%s:map[]%s", fname, typeName(mu.Value.Type())), mu.Pos(), !bad,
 							fmt.Sprintf("%s puts a %s taken from the source into a map of the copy without copying it: %s", fname, mu.Value.Type(), why))
@@ -1080,4 +1089,103 @@ func notDocumentContent(p *Program, owner *types.Named, fv *types.Var) string {
 	}
 	notContentCache[fv] = why
 	return why
+}
+
+
+// registryEntriesMutated: some module function ranges over the registry map held in field mapField
+// and passes a value reached from an entry to a function that stores through that argument — a
+// static callee whose mutation summary writes the parameter, or a function-valued parameter whose
+// actual closures do.  Returns a description of the first such place, or "".
+func registryEntriesMutated(p *Program, ms *mutSummary, mapField *types.Var) string {
+	ms.computeAll()
+	writesParam := func(f *ssa.Function, idx int) bool {
+		if f == nil {
+			return false
+		}
+		return len(ms.Params(f)[idx]) > 0
+	}
+	for _, g := range p.ModFuncs() {
+		if g.Pkg == nil || g.Pkg.Pkg.Path() != pkgDoc {
+			continue
+		}
+		// values reached from the entries of the map
+		derived := map[ssa.Value]bool{}
+		allInstrs(g, func(in ssa.Instruction) {
+			rg, ok := in.(*ssa.Range)
+			if !ok {
+				return
+			}
+			if fv, _ := fieldOfAddr(stripLoadsAddr(rg.X)); fv == mapField {
+				derived[rg] = true
+			}
+		})
+		if len(derived) == 0 {
+			continue
+		}
+		for changed := true; changed; {
+			changed = false
+			allInstrs(g, func(in ssa.Instruction) {
+				v, ok := in.(ssa.Value)
+				if !ok || derived[v] {
+					return
+				}
+				switch x := in.(type) {
+				case *ssa.Next, *ssa.Extract, *ssa.UnOp, *ssa.FieldAddr, *ssa.Field, *ssa.IndexAddr, *ssa.Index, *ssa.Phi, *ssa.Range, *ssa.Lookup:
+					for _, op := range x.Operands(nil) {
+						if *op != nil && derived[*op] {
+							derived[v] = true
+							changed = true
+							return
+						}
+					}
+				}
+			})
+		}
+		found := ""
+		allInstrs(g, func(in ssa.Instruction) {
+			if found != "" {
+				return
+			}
+			c, ok := in.(ssa.CallInstruction)
+			if !ok {
+				return
+			}
+			for ai, a := range c.Common().Args {
+				if !derived[a] || !isPointerLike(a.Type()) {
+					continue
+				}
+				if cal := staticCallee(c); cal != nil {
+					if p.inModule(cal) && writesParam(cal, ai) {
+						found = fmt.Sprintf("%s walks the registry and hands what an entry holds to %s, which writes through it (%s)", shortName(g), shortName(cal), p.pos(c.Pos()))
+					}
+					continue
+				}
+				// a call through a function-valued parameter of g: what do the callers pass?
+				fp, ok := c.Common().Value.(*ssa.Parameter)
+				if !ok || fp.Parent() != g {
+					continue
+				}
+				pi := paramIndex(g, fp)
+				for _, cs := range staticCallSites(p, g) {
+					if pi < 0 || pi >= len(cs.Common().Args) {
+						continue
+					}
+					var lit *ssa.Function
+					switch y := cs.Common().Args[pi].(type) {
+					case *ssa.MakeClosure:
+						lit, _ = y.Fn.(*ssa.Function)
+					case *ssa.Function:
+						lit = y
+					}
+					if lit != nil && writesParam(lit, ai) {
+						found = fmt.Sprintf("%s walks the registry and hands what an entry holds to a callback; %s passes one that writes through it (%s)", shortName(g), shortName(topLevel(cs.Parent())), p.pos(cs.Pos()))
+					}
+				}
+			}
+		})
+		if found != "" {
+			return found
+		}
+	}
+	return ""
 }
